@@ -69,6 +69,36 @@ def gen_ops(tier, rng):
         for _ in range(3 if tier == "quick" else 12):
             E = sorted(rng.sample(range(d), rng.randint(1, 3)))
             add("leo16", "-", d, p, 64, rng.choice(["all", "data"]), E, [], "nil", "large-gf16")
+    # sequences of reconstructions on ONE Leopard encoder (the GF8 error-locator cache takes part): every answer must be the
+    # original bytes.  Neighbouring erasure sets (one position moved) in every 64-bit word of the cache key, cache default
+    # (<= 64 shards) and forced on larger shapes.
+    from . import c10
+    for _ in range(120 if tier == "quick" else 3000):
+        fam = rng.choice(["leo8", "leo8", "leo8", "leo16"])
+        if rng.random() < 0.5:
+            d = rng.randint(2, 50); p = rng.randint(2, min(14, 64 - d)) if d < 62 else 2
+            opts = rng.choice(["-", "-", "nosimd"])
+        else:
+            d = rng.randint(30, 200); p = rng.randint(2, 40)
+            opts = rng.choice(["ic+", "ic+", "-"])
+        if not admissible(8, d, p):
+            continue
+        n = d + p
+        base = sorted(rng.sample(range(n), rng.randint(1, min(p, 3))))
+        subs = []
+        for _ in range(rng.randint(3, 7)):
+            r = rng.random()
+            if r < 0.7:
+                E = list(base)
+                k = rng.randrange(len(E))
+                E[k] = min(n - 1, max(0, E[k] + rng.choice([-4, -1, 1, 4, 8])))
+                E = sorted(set(E))
+            elif r < 0.85:
+                E = list(base)
+            else:
+                E = sorted(rng.sample(range(n), rng.randint(1, p)))
+            subs.append(c10.sub_r(rng, d, p, 64, E, rng.choice(["all", "all", "data"]), []))
+        ops.append((f"hist {fam} {opts} {d} {p} ; " + " ; ".join(subs), {"cat": "sequence-" + fam, "E": 1}))
     if tier == "thorough":
         for (d, p, k) in [(32768, 32768, 1), (32768, 32768, 8192), (1000, 1000, 250), (1000, 1000, 251), (65535, 1, 1), (1, 32768, 100)]:
             E = sorted(rng.sample(range(d + p), k))
